@@ -9,7 +9,7 @@ Program AST (JSON-able):
   clause [name,[head terms],goal-or-None]
 Mirrors the engine where it deviates from ISO: head arguments that are plain once-occurring variables are
 aliased to the actual arguments, no occurs check (a case that needs a cyclic term raises
-Cyclic and is not compared), findall does not rename the unbound variables of its results, dynamic facts
+Cyclic and is not compared), findall copies its results (new variables per instance, as the engine since D27), dynamic facts
 are tried before compiled clauses, pyp(X) is X = a ; X = c and raises Boom at its j-th call.
 """
 
@@ -265,7 +265,8 @@ class Interp:
                 yield s1
                 return
         elif k == 'findall':
-            res = [resolve(g[1], s1) for s1 in self.solve(g[2], s, {'cuts': 0})]
+            # the engine collects COPIES (copy_term(template, {}) per answer, repair D27): new variables per instance
+            res = [self.rename([resolve(g[1], s1)], {})[0] for s1 in self.solve(g[2], s, {'cuts': 0})]
             lst = ['a', '[]']
             for x in reversed(res):
                 lst = ['f', '.', [x, lst]]
